@@ -1,12 +1,8 @@
 ---- MODULE Tmp ----
-EXTENDS Values, Json
-J == ndJsonDeserialize("/tmp/t1/x.ndjson")
-ASSUME PrintT(<<"1", Cardinality({[a |-> 1], <<>>})>>)
-ASSUME PrintT(<<"2", [a |-> 1] = <<>>, <<>> = [a |-> 1]>>)
-ASSUME PrintT(<<"3", J[1].e, J[1].l, J[1].e = J[1].l, J[1].e = <<>>, J[1].l = [x \in {} |-> 1], Cardinality({J[1].e, J[1].l, [a |-> 1], J[1].r})>>)
-ASSUME PrintT(<<"4", J[1].r = [a |-> 1], [a |-> 1] = J[1].e, J[1].l = [a |-> 1], [x \in {"a"} |-> 1] = J[1].r,  Cardinality({[x \in {"a"} |-> 1], J[1].r, J[1].e})>>)
-ASSUME PrintT(<<"5", DOMAIN J[1].e, DOMAIN J[1].l, Len(J[1].e)>>)
-VARIABLE x
-Init == x = 0
-Next == UNCHANGED x
+EXTENDS Refine, Json
+T == ndJsonDeserialize("/tmp/t1/rev.ndjson")
+o == UnmarkDeep(T[5].orig)
+ASSUME PrintT(<<o, T[6].call, Contradictory(o, NoRf, T[6].call), Applies(T[6].call, o.ty), o # DynVal>>)
+Init == orig = DynVal /\ r = NoRf /\ said = <<>> /\ status = "gen"
+Next == UNCHANGED <<orig, r, said, status>>
 ====
